@@ -189,6 +189,44 @@ theorem mismatch_map_ver (g : Graph V) (od : Nat → Bool) (ds : List Nat)
     simp only [List.map_cons, mismatch]
     simp [h d (List.mem_cons_self ..), ih (fun d hd => h d (List.mem_cons_of_mem _ hd))]
 
+/-- no mismatch against parameter-like dependencies (`od = false`): the remembered list starts with
+    the current versions in enumeration order -/
+theorem mismatch_false_map (g : Graph V) (od : Nat → Bool) (ds rv : List Nat)
+    (h : mismatch g od ds rv = false) (hlen : ds.length = rv.length) : ds.map (ver g) = rv := by
+  induction ds generalizing rv with
+  | nil => cases rv with
+    | nil => rfl
+    | cons => simp at hlen
+  | cons d ds ih =>
+    cases rv with
+    | nil => simp at hlen
+    | cons r rs =>
+      simp only [mismatch, Bool.or_eq_false_iff, bne_eq_false_iff_eq] at h
+      simp [h.1.1, ih rs h.2 (by simpa using hlen)]
+
+theorem sum_eq_pointwise (ds : List Nat) (f g : Nat → Nat) (hle : ∀ d ∈ ds, f d ≤ g d)
+    (hsum : (ds.map f).sum = (ds.map g).sum) : ∀ d ∈ ds, f d = g d := by
+  induction ds with
+  | nil => simp
+  | cons d ds ih =>
+    simp only [List.map_cons, List.sum_cons] at hsum
+    have h1 := hle d (List.mem_cons_self ..)
+    have hle' : ∀ e ∈ ds, f e ≤ g e := fun e he => hle e (List.mem_cons_of_mem _ he)
+    have h2 : (ds.map f).sum ≤ (ds.map g).sum := by
+      clear hsum ih
+      induction ds with
+      | nil => simp
+      | cons e es ihe =>
+        simp only [List.map_cons, List.sum_cons]
+        have := hle' e (List.mem_cons_self ..)
+        have := ihe (fun x hx => hle x (by simp at hx ⊢; rcases hx with rfl | hx <;> simp [*]))
+          (fun x hx => hle' x (List.mem_cons_of_mem _ hx))
+        omega
+    intro e he
+    rcases List.mem_cons.1 he with rfl | he
+    · omega
+    · exact ih hle' (by omega) e he
+
 /-! ### fuel independence under `WF` -/
 
 theorem outdated_fuel (g : Graph V) (hwf : WF g) (f1 f2 i : Nat) (h1 : i < f1) (h2 : i < f2) :
